@@ -97,13 +97,17 @@ def big_cases(ctx):
     shapes = [(80, "m/s", 60.0), (160, "km/s", 0.02), (120, "km/s", 1.0), (250, "m/s", 900.0), (60, "km/s", 0.05)]
     if ctx.tier == "thorough":
         shapes += [(200, "m/s", 25.0), (240, "km/s", 5.0), (100, "m/s", 3.0)]
+    # precise data in a large unit: 3 cm/s and 6 cm/s uncertainties on velocities given in km/s (variances ~1e-9 in the data's unit).
+    # Perfectly valid input: the value must be finite; the comparison with numpy's direct solve is loosened to what double precision
+    # can deliver at this conditioning (`finite_only`)
+    shapes += [(12, "km/s", 2.0**-15), (30, "km/s", 2.0**-14)]
     for n, unit, err in shapes:
         spec = K.gen_spec(rng, n_max=4, tier="quick", full_frac=0.0, allow_offsets=False)
         scale = 1.0 if unit == "km/s" else 1000.0
         t = np.sort(np.round(rng.uniform(0, 900, n) * 64) / 64) + np.arange(n) / 64 + 55000.0
         rv = np.round(rng.normal(0, 12, n) * 256) / 256 * scale
         e = np.full(n, err) * (1.0 + 0.25 * (np.arange(n) % 3))
-        spec.update(data_unit=unit, surveys=[dict(t=t.tolist(), rv=rv.tolist(), err=e.tolist())], err_unit=None, big=True)
+        spec.update(data_unit=unit, surveys=[dict(t=t.tolist(), rv=rv.tolist(), err=e.tolist())], err_unit=None, big=True, finite_only=bool(err < 1e-3))
         spec.pop("smp_units", None)
         spec.pop("t_ref", None)
         spec.pop("t_ref_scale", None)
@@ -159,7 +163,7 @@ def run_big(ctx):
         if not math.isfinite(o["ll"]):
             ctx.fail("predicate", "C01:kernel", f"marginal_ln_likelihood = {o['ll']} for a finite valid input with {ne} epochs in {spec['data_unit']} "
                      f"(closed form {ll_cf!r})", case=spec)
-        elif abs(o["ll"] - ll_cf) > BIG_TOL * max(1.0, abs(ll_cf)):
+        elif abs(o["ll"] - ll_cf) > (1e-3 if spec.get("finite_only") else BIG_TOL) * max(1.0, abs(ll_cf)):
             ctx.fail("predicate", "C01:kernel", f"{ne} epochs in {spec['data_unit']}: marginal_ln_likelihood = {o['ll']!r} but ln N(y | M mu, C + s^2 I + M Lambda M^T) = {ll_cf!r}", case=spec)
     return n
 
